@@ -177,6 +177,25 @@ PCS = [None, "AB1 2CD", "AB1 2CE", "AB1 3CD", "AB2 2CD", "AC1 2CD", "ab1 2cd", "
 EMS = [None, "john@smith.com", "john@other.com", "jon@smith.com", "john.smith@company.com", "john.smyth@company.com", "rebecca@other.com", "nodomain", "", "@x.com"]
 
 
+def antipodal_pairs(rng, k):
+    """Exactly antipodal coordinate pairs at latitudes where sin*sin + cos*cos*cos(pi) rounds to just BELOW -1 in double precision
+    (about 4% of a 0.1-degree grid): the clip of the acos argument must send it to -1 (half the circumference), not elsewhere."""
+    import math
+
+    hits = []
+    for i in range(0, 901):
+        la = i / 10
+        a, b = math.radians(la), math.radians(-la)
+        if math.sin(a) * math.sin(b) + math.cos(a) * math.cos(b) * math.cos(math.radians(180.0)) < -1:
+            hits.append(la)
+    rng.shuffle(hits)
+    out = []
+    for la in hits[:k]:
+        lo = rng.choice([0.0, 10.0, -60.0])
+        out += [(la, lo), (-la, lo + 180.0 if lo <= 0 else lo - 180.0)]
+    return out
+
+
 def rand_str(rng):
     return "".join(rng.choice("abcm") for _ in range(rng.randint(1, 6)))
 
@@ -213,6 +232,7 @@ def side_values(scn: str, rng: random.Random, thorough: bool) -> list[dict]:
             recs.append({"a": a})
     elif scn == "km":
         cs = COORDS + [(round(rng.uniform(-90, 90), 4), round(rng.uniform(-180, 180), 4)) for _ in range(70 if thorough else 10)]
+        cs += antipodal_pairs(rng, 8 if not thorough else 30)
         for la, lo in cs:
             recs.append({"lat": la, "lng": lo})
     elif scn == "cos":
